@@ -806,6 +806,10 @@ class TunnelCommunity(Community):
         """
         circuit_id = create_payload.circuit_id
 
+        if circuit_id in self.circuits or circuit_id in self.relay_from_to or circuit_id in self.exit_sockets:
+            self.logger.warning("Refusing to join circuit %d: circuit id is already in use", circuit_id)
+            return
+
         self.logger.info("We joined circuit %d with neighbour %s", circuit_id, previous_node_address)
 
         shared_secret, key, auth = self.crypto.generate_diffie_shared_secret(create_payload.key)
